@@ -131,7 +131,7 @@ reg("C14", "sched", "model_checking",
     "27 endings (server close with/without body, EOF, reset, protocol/payload errors, ping timeout, refused, rejected handshake, close() from each callback x 3 server reactions, "
     "KeyboardInterrupt in callbacks) x ping thread on/off x plain/TLS, plus close() from a second thread preempting the loop at every scheduling point and every line: "
     "run_forever returns, on_close exactly once and last with the server's code/reason, return value = error reported, sockets and ping thread gone at return, second run behaves like a fresh object.",
-    "Trusted: scheduler + simulated kernel (mc/sched.py, mc/tnet.py). Known findings: close() from another thread while the opening handshake is in progress (see known_findings.jsonl).",
+    "Trusted: scheduler + simulated kernel (mc/sched.py, mc/tnet.py).",
     "DESIGN.md section 6 C14")
 
 reg("C15", "sched", "model_checking",
